@@ -7,9 +7,10 @@
               change_basis, syme / unsyme / mixed sums, Cauchy-Green / Green-Lagrange tensors,
               push_forward(stensor, F), matrix access, buildFromFortranMatrix, Id, polar_decomposition (1D, partial)
     Props3ST Props3TT Props3TS Props3S2T   st2tost2 / t2tot2 / t2tost2 / st2tot2 in 3D
-    PropsN2 PropsN1                        the same in 2D and 1D
-    Props3PF  push_forward / pull_back of st2tost2<3>
-    Props3CB  change_basis of the 3D fourth-order tensors
+    Props2ST Props2TT Props2TS Props2S2T   the same in 2D
+    PropsN1                                the same in 1D
+    PropsPF   push_forward / pull_back of st2tost2 (1D, 2D, 3D)
+    PropsCB   change_basis of the fourth-order tensors (1D, 2D, 3D)
 
   and states the projector identities on the traced constants themselves (`matOf` reads a row-major list
   as a stored matrix): `J + K = Id`, `J : J = J`, `K : K = K`, `J : K = 0`, `M = 3/2 K`, through the traced
@@ -17,13 +18,16 @@
 -/
 import TfelVerif.C02.PropsT
 import TfelVerif.C02.PropsN1
-import TfelVerif.C02.PropsN2
+import TfelVerif.C02.Props2ST
+import TfelVerif.C02.Props2TT
+import TfelVerif.C02.Props2TS
+import TfelVerif.C02.Props2S2T
 import TfelVerif.C02.Props3ST
 import TfelVerif.C02.Props3TT
 import TfelVerif.C02.Props3TS
 import TfelVerif.C02.Props3S2T
-import TfelVerif.C02.Props3PF
-import TfelVerif.C02.Props3CB
+import TfelVerif.C02.PropsPF
+import TfelVerif.C02.PropsCB
 
 namespace TfelVerif.C02.Props
 open TfelVerif TfelVerif.Mandel TfelVerif.C02
